@@ -71,7 +71,7 @@ def expected_strains(tab, v_array):
 
 
 def _run(ctx, e2e):
-    n = ctx.pick(48, 3200)
+    n = ctx.pick(48, 1000)
     for i in range(n):
         case_id = f"ds{i}"
         if not ctx.mine(i, case_id):
